@@ -82,12 +82,19 @@ class Msg:
 
 
 class MsgType:
-    def __init__(self, name):
+    """a message class known by its name; it derives from some other message class (symbolic name), then object"""
+    def __init__(self, name, base=True):
         self.name = name
+        self.base = base
 
     def pv_getattr(self, ip, name):
         if name == '__name__':
             return Sym(self.name, 'str')
+        if name in ('__mro__', '__bases__'):
+            b = MsgType(z3.String('msg_base_class_name'), base=False) if self.base else None
+            chain = ([self] if name == '__mro__' else []) + ([b] if b is not None else []) + \
+                    ([BuiltinType.get('object')] if name == '__mro__' or b is None else [])
+            return tuple(chain)
         ip.ctx.raise_exc('AttributeError', name)
 
 
@@ -290,9 +297,14 @@ class _:
         E.ghost('js', S.term(js))
         return args
     skolems = {'k': 'str'}
-    uses = ['dispatch.MessageDispatcher.register_function']
+    uses = ['dispatch.MessageDispatcher.register_function', 'dispatch.MessageDispatcher.unregister']
     hooks = HOOKS
     may_raise = ['Exception']        # refusal of a duplicate (register_function's contract says exactly when)
+    ensures_exc = {
+        # a refused registration leaves every handler that was registered before in place
+        'refusal-keeps-earlier-handlers': lambda old, self, k: S.bool(z3.Implies(dom(old.self.registered_events, k.t), z3.And(
+            dom(self.registered_events, k.t), val(self.registered_events, k.t) == val(old.self.registered_events, k.t)))),
+    }
     loops = {0: LoopSpec(
         invariant={
             'registered-so-far': lambda self, resource, ghost, _i: S.bool(z3.Implies(
